@@ -50,15 +50,19 @@ out["corrupt_case_token"] = dict(cases=s["cases"], mismatches=s["mismatches"], o
 
 # 3 ---------------------------------------------------------------------
 if "--with-repo" in sys.argv:
-    st = subprocess.run(["git", "-C", "/repo", "status", "--porcelain"], stdout=subprocess.PIPE, text=True).stdout
-    assert not st.strip(), "/repo not clean"
-    src = open("/repo/stack.go").read()
+    import shutil
+    scratch = "/tmp/selfrepo"
+    shutil.rmtree(scratch, ignore_errors=True)
+    subprocess.run(["git", "clone", "-q", "/repo", scratch], check=True)
     try:
-        open("/repo/stack.go", "w").write("\n".join(l for l in src.splitlines() if "verifPoint(" not in l) + "\n")
-        rc, o, _ = lib.run(["python3", os.path.join(V, "run", "check.py"), "C10", "--tier", "quick"], cwd=V, timeout=3000)
-        out["hook_removed"] = dict(exit=rc, last_line=o.strip().splitlines()[-1][:300], ok=rc == 2)
+        src = open(scratch + "/stack.go").read()
+        open(scratch + "/stack.go", "w").write("\n".join(l for l in src.splitlines() if "verifPoint(" not in l) + "\n")
+        env = dict(os.environ, VERIF_REPO=scratch)
+        p = subprocess.run(["python3", os.path.join(V, "run", "check.py"), "C10", "--tier", "quick"], cwd=V, env=env,
+                           stdout=subprocess.PIPE, stderr=subprocess.STDOUT, text=True, timeout=3000)
+        out["hook_removed"] = dict(exit=p.returncode, last_line=p.stdout.strip().splitlines()[-1][:300], ok=p.returncode == 2)
     finally:
-        subprocess.run(["git", "-C", "/repo", "checkout", "-q", "--", "."])
+        shutil.rmtree(scratch, ignore_errors=True)
 json.dump(out, open(os.path.join(V, "seeded", "BINDING.json"), "w"), indent=1)
 print(json.dumps(out, indent=1))
 sys.exit(0 if all(x["ok"] for x in out.values()) else 1)
